@@ -293,6 +293,14 @@ func doCombine(tr sink, st *state, step drv.Step) {
 				}
 			case "index": // filed under the id of rank arg
 				fileUnder = st.idOf(arg)
+			case "junk": // 96 bytes that are no signature: not decodable (arg 0) / one byte of the honest signature flipped (arg 1)
+				if arg == 0 {
+					for i := range sig {
+						sig[i] = 0xff
+					}
+				} else {
+					sig[len(sig)/2] ^= 0x55
+				}
 			case "msg": // made over a different message
 				if sig, err = tbls.Sign(key, msgOf(step["msg"], true)); err != nil {
 					failed = true
